@@ -15,6 +15,12 @@ func VerifH_C13_jsonExtract() {
 	prefixes := []string{"", `{`, `{"a`, `{"a":`, `{"a":"`, `{"a":"\\`, `{"a":1`, `{"a":-`, `{"a":[`, `{"a":{"x":1}`, `{"b":{"c":`, `{"b":{"c":"v"}`, `{"z":[1,{"a":2}],"a":`, `{"other":`, `{"a":nul`, `{"a":1,"a":`}
 	pre := prefixes[vf.Choose("prefix", len(prefixes))]
 	tail := vf.Bytes("tail", vf.Choose("tail-len", vf.Param("T", 2)+1))
+	if vf.Param("nofloat", 0) == 1 {
+		// numbers with a fraction or an exponent whose digits are symbolic need symbolic floats (not encoded)
+		for _, b := range tail {
+			vf.Assume(b != '.' && b != 'e' && b != 'E')
+		}
+	}
 	content := append([]byte(pre), tail...)
 	root := insaneJSON.Spawn()
 	if err := root.DecodeString(`{"f":"x","other":1}`); err != nil {
